@@ -208,6 +208,8 @@ def run(R, tier, seed, driver_ok):
                     prm['max_iter'] = 40
                 if name in ('LMNN', 'NCA', 'MLKR'):
                     prm['init'] = np.ascontiguousarray(rng.randn(d, d))
+                if name == 'LFDA':
+                    prm['k'] = d + 2                      # larger than the dimensionality: fit clamps the value it USES
                 if name.startswith('SCML'):
                     Bs = rng.randn(3 * d, d); prm['basis'] = Bs / np.linalg.norm(Bs, axis=1, keepdims=True); prm['n_basis'] = 3 * d
             ia, fa = zoo.fit_args(name, X, y, rng, indices=True)
@@ -234,6 +236,8 @@ def run(R, tier, seed, driver_ok):
                     R.violation(f'{name}.fit/replaces-param-{k}', f'{name}: get_params()[{k!r}] after fit is not the object passed at construction', case)
                 elif isinstance(obj, np.ndarray) and (obj.shape != snap.shape or obj.tobytes() != snap.tobytes()):
                     R.violation(f'{name}.fit/writes-param-{k}', f'{name}: fit changed the contents of the constructor parameter {k} (max change {np.abs(obj - snap).max():.3g})', case)
+                elif not isinstance(obj, np.ndarray) and not callable(obj) and repr(obj) != repr(snap):
+                    R.violation(f'{name}.fit/writes-param-{k}', f'{name}: fit changed the constructor parameter {k}: {snap!r} → {obj!r}', case)
             try:
                 with warnings.catch_warnings():
                     warnings.simplefilter('ignore')
